@@ -613,7 +613,21 @@ var serverApplyConfigFunc = func(s []string) error {
 	}
 	timedctx, cancelFunc := context.WithTimeout(context.Background(), appctl.RPCTimeout)
 	defer cancelFunc()
-	_, err = client.SetConfig(timedctx, patch)
+
+	// SetConfig replaces the stored configuration.
+	// Merge the patch into the existing configuration before sending it.
+	config, err := client.GetConfig(timedctx, &emptypb.Empty{})
+	if err != nil {
+		// There is no existing configuration.
+		config = &appctlpb.ServerConfig{}
+	}
+	if err := appctl.MergeServerConfig(config, patch); err != nil {
+		return fmt.Errorf("merge server config failed: %w", err)
+	}
+	if err := appctl.ValidateFullServerConfig(config); err != nil {
+		return fmt.Errorf(stderror.ValidateServerConfigPatchFailedErr, err)
+	}
+	_, err = client.SetConfig(timedctx, config)
 	if err != nil {
 		return fmt.Errorf(stderror.SetServerConfigFailedErr, err)
 	}
